@@ -638,7 +638,14 @@ def sext(a, w_from, w_to):
 
 
 def extract(a, hi, lo):
-    return mkv(a.bits[lo:hi + 1])
+    bits = a.bits[lo:hi + 1]
+    if lo == 0 and G.canon_sums:
+        f = G.sums.get(tuple(a.bits))
+        if f is not None:
+            # the low k bits of a modular sum are the sum of the operands' low k bits
+            k = hi + 1
+            G.sums.setdefault(tuple(bits), (tuple(sorted(t[:k] for t in f[0])), f[1] & ((1 << k) - 1)))
+    return mkv(bits)
 
 
 def concat(hi, lo, whi, wlo):
@@ -669,8 +676,16 @@ def simulate(g, nwords, rnd, patterns=()):
     def lv(l):
         return val[l >> 1] ^ (mask if l & 1 else 0)
     # inputs first (canonical nodes may precede inputs created later)
+    nb = 64 * nwords
+    third = nb // 3
+    m_hi = ((1 << third) - 1) << (nb - third)          # top third: inputs mostly 1 (long carry chains, all-ones words)
+    m_lo = ((1 << third) - 1) << (nb - 2 * third)      # middle third: inputs mostly 0
     for n in g.inputs:
-        v = rnd.getrandbits(64 * nwords)
+        v = rnd.getrandbits(nb)
+        b1, b2 = rnd.getrandbits(nb), rnd.getrandbits(nb)
+        v = (v & ~(m_hi | m_lo)) | ((v | b1 | b2) & m_hi) | ((v & b1 & b2) & m_lo)
+        v |= 1 << (nb - 1)                              # one all-ones and one all-zeros pattern
+        v &= ~(1 << (nb - 2))
         if np_:
             nm = g.names.get(n)
             v &= ~((1 << np_) - 1)
@@ -730,7 +745,7 @@ def topo(g):
     return out
 
 
-def cone(g, roots):
+def cone(g, roots, stop=None):
     seen = set()
     stack = [r >> 1 for r in roots if r > 1]
     while stack:
@@ -738,16 +753,19 @@ def cone(g, roots):
         if n in seen:
             continue
         seen.add(n)
+        if stop is not None and n in stop:
+            continue
         for l in g.children(n):
             if l > 1:
                 stack.append(l >> 1)
     return seen
 
 
-def to_cnf(g, lits_true, any_of=()):
+def to_cnf(g, lits_true, any_of=(), stop=None):
     """CNF asserting every literal in lits_true and at least one literal of any_of;
-    returns (nvars, clauses, varmap node->var)"""
-    nodes = sorted(cone(g, list(lits_true) + list(any_of)))
+    returns (nvars, clauses, varmap node->var).  stop: cut points -- these nodes become free variables (an UNSAT
+    answer is still a proof; a model may be spurious)"""
+    nodes = sorted(cone(g, list(lits_true) + list(any_of), stop))
     vm = {n: i + 1 for i, n in enumerate(nodes)}
 
     def L(l):
@@ -760,6 +778,8 @@ def to_cnf(g, lits_true, any_of=()):
         cl.append((-z, x, y)); cl.append((-z, -x, -y)); cl.append((z, -x, y)); cl.append((z, x, -y))
     for n in nodes:
         k = g.kind[n]
+        if stop is not None and n in stop:
+            continue
         if k == 4:
             ins = [vm[l >> 1] for l in g.children(n)]
             acc = ins[0]
